@@ -164,17 +164,6 @@ Proof.
   intros Hl H b. rewrite (unescape_split q _ _ _ _ _ Hl H), <- app_assoc. eapply unescape_tail; eassumption.
 Qed.
 
-(* the byte at which a numeral's run stops is not a numeral byte *)
-Lemma num_run_stop h : forall s e a c b, num_run h e s = (a, c :: b) -> numch c = false.
-Proof.
-  induction s as [|d s IH]; intros e a c b H; cbn [num_run] in H; [discriminate|].
-  fold (numch d) in H. destruct (numch d) eqn:Ed.
-  - destruct (num_run h _ s) as [a' b'] eqn:E. injection H as <- ->. eapply IH, E.
-  - destruct (e && ((d =? 43) || (d =? 45))).
-    + destruct (num_run h false s) as [a' b'] eqn:E. injection H as <- ->. eapply IH, E.
-    + injection H as <- <- <-. exact Ed.
-Qed.
-
 (* white space *)
 Lemma spec_step_space a rest : a <> [] -> forallb is_blank a = true -> stops is_blank rest ->
   spec_step (a ++ rest) = Some (mk SSpace a a, rest).
@@ -306,7 +295,7 @@ Proof.
       * destruct (long_open (61 :: r0) 0) as [[lvl r2]|]; [|discriminate].
         destruct (long_body _ _) as [[[b0 cl] rs]|] in H; [|discriminate]. injection H as Ht _. discriminate Ht.
     + rewrite spec_step_number in H by (cbn [num_start]; rewrite Ec; reflexivity).
-      unfold spec_number in H. destruct (num_run _ _ _) as [run rs] in H.
+      unfold spec_number in H. destruct (num_split _) as [run rs] in H.
       destruct (spec_numeral run) as [[n d]|]; [|discriminate]. injection H as Ht _. discriminate Ht.
     + apply Z.eqb_eq in Ec. subst c. rewrite colons_eq in H. destruct (span is_name_char r0) as [a0 b0] in H.
       break_match H; injection H as Ht _; discriminate Ht.
@@ -365,11 +354,7 @@ Proof.
     pose proof (unescape_tail q (length r) r v raw rest (le_n _) H1 (c :: R)) as Hu.
     cbn [s_raw app]. destruct H0 as [-> | ->]; unfold spec_step; cbn -[unescape_until app]; rewrite Hu; reflexivity.
   - (* number *)
-    destruct (spec_number_ctx _ _ _ H1) as (run & Hraw & Hrun & Hs & Hctx). subst rest.
-    rewrite Hraw. apply Hctx; [|exact H0].
-    unfold spec_number in H1. destruct (num_run _ _ _) as [run' rs] eqn:En.
-    destruct (spec_numeral run') as [[n d]|]; [|discriminate]. injection H1 as _ Hrs. subst rs.
-    cbn [num_stops]. split; [eapply num_run_stop, En | reflexivity].
+    subst rest. eapply spec_number_local; eassumption.
   - (* name / keyword *)
     destruct (word_shape _ _ _ _ H0 H1) as (Hn & Hs & Hst).
     assert (Hraw : s_raw (mk (if mem_bytes a spec_keywords then SKeyword else SName) a a) = a) by reflexivity.
@@ -396,18 +381,6 @@ Lemma all_last (p : Z -> bool) l d : l <> [] -> forallb p l = true -> p (last l 
 Proof.
   intros Hne Hall. destruct (forallb_last p l) as (q & c & -> & Hc); [destruct l; [congruence | reflexivity] | exact Hall|].
   rewrite last_last. exact Hc.
-Qed.
-
-Lemma num_run_all h : forall s e a b, num_run h e s = (a, b) ->
-  forallb (fun c => numch c || is_sign c) a = true.
-Proof.
-  induction s as [|d s IH]; intros e a b H; cbn [num_run] in H; [injection H as <- _; reflexivity|].
-  fold (numch d) in H. destruct (numch d) eqn:Ed.
-  - destruct (num_run h _ s) as [a' b'] eqn:E. injection H as <- _. cbn [forallb]. rewrite Ed. cbn. eapply IH, E.
-  - destruct (e && ((d =? 43) || (d =? 45))) eqn:Es.
-    + destruct (num_run h false s) as [a' b'] eqn:E. injection H as <- _. cbn [forallb].
-      apply andb_true_iff in Es. destruct Es as [_ Es]. unfold is_sign. rewrite Es, orb_true_r. cbn. eapply IH, E.
-    + injection H as <- _. reflexivity.
 Qed.
 
 Lemma symbols_no_lf : forallb (fun x => negb (last x 0 =? 10)) spec_symbols = true.
@@ -460,9 +433,9 @@ Proof.
     pose proof (unescape_split q _ _ _ _ _ (le_n _) H1) as Hr. rewrite app_nil_r in Hr. subst r.
     change (q :: raw' ++ [q]) with ((q :: raw') ++ [q]) in Hlast. rewrite last_last in Hlast.
     destruct H0; subst q; discriminate.
-  - (* number *) exfalso. unfold spec_number in H1. destruct (num_run _ _ _) as [run rs] eqn:En.
+  - (* number *) exfalso. unfold spec_number in H1. destruct (num_split _) as [run rs] eqn:En.
     destruct (spec_numeral run) as [[n d]|]; [|discriminate]. injection H1 as <- ->.
-    pose proof (num_run_all _ _ _ _ _ En) as Hall. cbn [s_raw] in Hsplit, Hne. subst s.
+    pose proof (num_split_chars _ _ _ En) as Hall. cbn [s_raw] in Hsplit, Hne. subst s.
     pose proof (all_last _ run 0 Hne Hall) as Hb. cbv beta in Hb. rewrite Hlast in Hb. discriminate.
   - (* word *) exfalso. pose proof (span_all _ _ _ _ H1) as Hall. pose proof (span_split _ _ _ _ H1) as Hsp.
     rewrite app_nil_r in Hsp. rewrite Hsp in Hlast.
@@ -612,7 +585,7 @@ Proof.
   - (* long string: level >= 0 *) exfalso. destruct (long_open_spec _ _ _ _ H0) as (k & Hk & _).
     unfold is_quoted in Q. cbn [s_kind s_long] in Q. lia.
   - exists q, raw, v. split; [assumption | reflexivity].
-  - exfalso. unfold spec_number in H1. destruct (num_run _ _ _) as [run rs]. destruct (spec_numeral run) as [[n d]|]; [|discriminate].
+  - exfalso. unfold spec_number in H1. destruct (num_split _) as [run rs]. destruct (spec_numeral run) as [[n d]|]; [|discriminate].
     injection H1 as <- _. discriminate Q.
   - destruct (mem_bytes a spec_keywords); discriminate Q.
   - exfalso. destruct (spec_symbol_inv _ _ _ H0) as (x & _ & -> & _). discriminate Q.
